@@ -30,14 +30,13 @@ theorem stepC_counters (s : CState) (op : Op) :
     · split <;> simp [hc.1, hc.2]
   case put k a => simp [hc.1, hc.2]
 
-theorem stepL_counters (i : Bool) (s : LState) (op : Op) :
-    ((stepL i s op).1.hits, (stepL i s op).1.misses) = countStep (s.hits, s.misses) op (stepL i s op).2 := by
+theorem stepL_counters (s : LState) (op : Op) :
+    ((stepL s op).1.hits, (stepL s op).1.misses) = countStep (s.hits, s.misses) op (stepL s op).2 := by
   cases op <;> simp only [stepL, countStep]
   case get k =>
     split
     · rfl
     · split <;> rfl
-  case setMax n => cases i <;> simp
   case hitsFor k =>
     split
     · rfl
@@ -51,8 +50,8 @@ theorem runC_counters (s : CState) (ops : List Op) :
     simp only [runC, List.zip_cons_cons, countersSpec]
     rw [ih, stepC_counters]
 
-theorem runL_counters (i : Bool) (s : LState) (ops : List Op) :
-    ((runL i s ops).1.hits, (runL i s ops).1.misses) = countersSpec (s.hits, s.misses) (ops.zip (runL i s ops).2) := by
+theorem runL_counters (s : LState) (ops : List Op) :
+    ((runL s ops).1.hits, (runL s ops).1.misses) = countersSpec (s.hits, s.misses) (ops.zip (runL s ops).2) := by
   induction ops generalizing s with
   | nil => rfl
   | cons op rest ih =>
@@ -83,7 +82,7 @@ theorem runC_length (s : CState) (ops : List Op) : (runC s ops).2.length = ops.l
   | nil => rfl
   | cons op rest ih => simp [runC, ih]
 
-theorem runL_length (i : Bool) (s : LState) (ops : List Op) : (runL i s ops).2.length = ops.length := by
+theorem runL_length (s : LState) (ops : List Op) : (runL s ops).2.length = ops.length := by
   induction ops generalizing s with
   | nil => rfl
   | cons op rest ih => simp [runL, ih]
@@ -114,7 +113,7 @@ theorem runC_eq_runG (s : CState) (ops : List Op) : runC s ops = runG stepC s op
   | nil => rfl
   | cons o rest ih => simp [runC, runG, ih]
 
-theorem runL_eq_runG (i : Bool) (s : LState) (ops : List Op) : runL i s ops = runG (stepL i) s ops := by
+theorem runL_eq_runG (s : LState) (ops : List Op) : runL s ops = runG (stepL) s ops := by
   induction ops generalizing s with
   | nil => rfl
   | cons o rest ih => simp [runL, runG, ih]
